@@ -8,6 +8,7 @@ import (
 	"sort"
 	"strings"
 	"sync"
+	"sync/atomic"
 	"testing"
 	"time"
 
@@ -25,17 +26,25 @@ import (
 //
 // One controlled group member M (autocommit off) polls topic t (2 partitions,
 // 6 records each, one broker) completely and then issues five commits in
-// program order, every one carrying offsets no other call carries:
+// program order; calls 1-4 carry pairwise distinct offsets so that every
+// OffsetCommit request frame can be attributed to the call that issued it:
 //
 //	call 1  CommitOffsets            {t/0:1, t/1:1}   async
 //	call 2  CommitOffsets            {t/0:2}          async
 //	call 3  CommitOffsetsSync        {t/0:3, t/1:2}
 //	call 4  CommitRecords(t/0@3)     {t/0:4}
-//	call 5  CommitUncommittedOffsets {t/0:6, t/1:6}   (whatever is dirty; read
-//	                                                   with PreCommitFnContext)
+//	call 5  CommitUncommittedOffsets {t/0:6, t/1:6}   (whatever is dirty, read
+//	                                                   with PreCommitFnContext;
+//	                                                   after a re-assignment it
+//	                                                   may repeat an earlier
+//	                                                   call's content or be a
+//	                                                   no-op)
 //
-// Variant R: a second member B joins the group once M has finished polling,
-// so a (cooperative) rebalance overlaps the commits.
+// Scenarios: C-single (M alone); C-rebalance (a second member B joins once M
+// has finished polling and M is told to rejoin with ForceRebalance, so a
+// cooperative rebalance overlaps the commits; the heartbeat-driven discovery
+// is reached through the "tick" deviation); C-rebalance-eager (same with the
+// round-robin balancer: everything is revoked and re-fetched).
 //
 // What the client promises (consumer_group.go): commit() chains every commit on
 // the completion of the previous one (priorDone), completion meaning that the
@@ -48,7 +57,8 @@ import (
 // (all attempts of call i, retries included, before the first attempt of
 // call i+1). Oracle 1 checks exactly that at the proxy.
 //
-// Oracle 2 (after every call returned and every callback ran, pass-through):
+// Oracle 2 (whenever every commit issued so far has finished: right after the
+// synchronous calls 3 and 4 returned, and at the end in pass-through mode):
 // per partition p let S be the last call in issue order that reported success
 // for p (callback/return error nil and partition error code 0). The group's
 // committed offset read by an uncontrolled admin client must be S's value, and
@@ -121,6 +131,27 @@ type state struct {
 	assigned map[int32]int // times assigned to M
 	taken    map[int32]int // times revoked or lost from M
 	withB    bool
+	addrs    []string    // broker addresses, captured while the cluster is alive
+	over     atomic.Bool // teardown began (also after an aborted, diverged replay)
+}
+
+// helper is nscen.Helper without the call into the cluster (which blocks for
+// ever once the cluster is closed): thread T1 may still be running when an
+// execution is torn down.
+func (st *state) helper(opts ...kgo.Opt) *kgo.Client {
+	base := []kgo.Opt{
+		kgo.SeedBrokers(st.addrs...),
+		kgo.Dialer(st.x.DirectDial),
+		kgo.ClientID("helper"),
+		kgo.MetadataMinAge(10 * time.Millisecond),
+		kgo.RetryBackoffFn(func(int) time.Duration { return 10 * time.Millisecond }),
+		kgo.DisableClientMetrics(),
+	}
+	cl, err := kgo.NewClient(append(base, opts...)...)
+	if err != nil {
+		panic(fmt.Sprintf("c09: helper client: %v", err))
+	}
+	return cl
 }
 
 func (st *state) call(i int) *call { return st.calls[i-1] }
@@ -241,10 +272,18 @@ func (st *state) hook(c *netctl.Conn, dir string, key, ver int16, frame []byte) 
 		st.mu.Lock()
 		defer st.mu.Unlock()
 		f := &reqFrame{conn: c.Name, corr: corr, parts: parts, status: map[int32]int{}}
+		// Attribute by content. Calls 1-4 carry pairwise distinct offsets;
+		// call 5 carries whatever is dirty, which after a revoke/re-assign is
+		// the re-fetched committed offset, i.e. possibly exactly what an
+		// earlier call carried. Among calls of identical content the frame
+		// belongs to the one in flight (issued, not finished); a stale frame
+		// of a finished call whose content equals the call in flight is
+		// indistinguishable from it on the wire and at the broker.
 		for _, cc := range st.calls {
 			if cc.known && !cc.noop && sameOffsets(cc.offsets, parts) {
-				f.call = cc.idx
-				break
+				if f.call == 0 || !cc.done || st.call(f.call).done {
+					f.call = cc.idx
+				}
 			}
 		}
 		st.frames = append(st.frames, f)
@@ -313,7 +352,7 @@ func commitFaults(x *netctl.Exec, dir string, key int16, c *netctl.Conn) []strin
 	return []string{"killafter"}
 }
 
-func groupOpts(st *state, track bool) []kgo.Opt {
+func groupOpts(st *state, track, eager bool) []kgo.Opt {
 	opts := []kgo.Opt{
 		kgo.ConsumerGroup("g"),
 		kgo.ConsumeTopics("t"),
@@ -322,6 +361,9 @@ func groupOpts(st *state, track bool) []kgo.Opt {
 		kgo.HeartbeatInterval(time.Second),
 		kgo.RebalanceTimeout(30 * time.Second),
 		kgo.ConsumeResetOffset(kgo.NewOffset().AtStart()),
+	}
+	if eager {
+		opts = append(opts, kgo.Balancers(kgo.RoundRobinBalancer()))
 	}
 	if track {
 		opts = append(opts,
@@ -351,7 +393,7 @@ func groupOpts(st *state, track bool) []kgo.Opt {
 	return opts
 }
 
-func scenario(name string, withB bool) *netctl.Scenario {
+func scenario(name string, withB, eager bool) *netctl.Scenario {
 	return &netctl.Scenario{
 		Name:      name,
 		Faults:    commitFaults,
@@ -367,7 +409,8 @@ func scenario(name string, withB bool) *netctl.Scenario {
 			x.FrameHook = st.hook
 
 			// Pre-load the topic through an uncontrolled client.
-			h := nscen.Helper(x, c, kgo.RecordPartitioner(kgo.ManualPartitioner()))
+			st.addrs = c.ListenAddrs()
+			h := st.helper(kgo.RecordPartitioner(kgo.ManualPartitioner()))
 			var recs []*kgo.Record
 			for p := int32(0); p < 2; p++ {
 				for i := 0; i < nRecords; i++ {
@@ -381,7 +424,7 @@ func scenario(name string, withB bool) *netctl.Scenario {
 			pcancel()
 			h.Close()
 
-			st.cl = nscen.NewClient(x, "M", c, groupOpts(st, true)...)
+			st.cl = nscen.NewClient(x, "M", c, groupOpts(st, true, eager)...)
 			x.OnCleanup(func() {
 				st.mu.Lock()
 				b := st.b
@@ -478,13 +521,14 @@ func scenario(name string, withB bool) *netctl.Scenario {
 			})
 
 			if withB {
+				bOpts := append(nscen.BaseOpts(x, "B", c), groupOpts(st, false, eager)...) // built while the cluster is alive
 				x.Thread("B", func(t *netctl.Thread) {
 					<-st.polled
 					if !st.pollOK {
 						return
 					}
 					t.Step("B-joins-group")
-					b, err := kgo.NewClient(append(nscen.BaseOpts(x, "B", c), groupOpts(st, false)...)...)
+					b, err := kgo.NewClient(bOpts...)
 					if err != nil {
 						panic(fmt.Sprintf("c09: client B: %v", err))
 					}
@@ -497,6 +541,7 @@ func scenario(name string, withB bool) *netctl.Scenario {
 					st.cl.ForceRebalance()
 				})
 			}
+			x.OnCleanup(func() { st.over.Store(true) }) // registered last: runs first
 		},
 		Done: func(x *netctl.Exec) bool {
 			st := x.Data.(*state)
@@ -556,12 +601,18 @@ func final(x *netctl.Exec, st *state) {
 // finished (it runs after a synchronous commit returned, which implies that
 // every earlier commit and its callback are over, and at the very end).
 func checkState(x *netctl.Exec, st *state, upto int, when string) []string {
+	if st.over.Load() {
+		return nil
+	}
 	// Broker truth through an uncontrolled admin client.
-	h := nscen.Helper(x, st.cluster)
+	h := st.helper()
 	defer h.Close()
 	ctx, cancel := context.WithTimeout(context.Background(), time.Minute)
 	defer cancel()
 	fetched, err := kadm.NewClient(h).FetchOffsets(ctx, "g")
+	if st.over.Load() {
+		return nil
+	}
 	if err != nil {
 		x.Violate("harness:offsetfetch", "admin OffsetFetch (%s): %v", when, err)
 		return nil
@@ -697,16 +748,19 @@ func keys(m map[int64]string) []int64 {
 	return ks
 }
 
+// The open-ended plan (C-single at k=3) comes last so that the time the
+// bounded ones leave unused rolls over to it.
 var plans = []nrun.Plan{
-	{Scenario: scenario("C-single", false), QuickBudget: 2, QuickFaultOnlyFrom: 2, ThoroughBudget: 2, Weight: 1},
-	{Scenario: scenario("C-rebalance", true), QuickBudget: 1, ThoroughBudget: 2, Weight: 1.5},
+	{Scenario: scenario("C-rebalance-eager", true, true), QuickBudget: 2, QuickFaultOnlyFrom: 2, ThoroughBudget: 2, Weight: 1},
+	{Scenario: scenario("C-rebalance", true, false), QuickBudget: 2, ThoroughBudget: 3, ThoroughFaultOnlyFrom: 3, Weight: 2},
+	{Scenario: scenario("C-single", false, false), QuickBudget: 2, ThoroughBudget: 3, Weight: 2},
 }
 
 func TestC09(t *testing.T) {
 	nrun.Main(t, &nrun.Check{
 		ID: "C09", TestName: "TestC09", Plans: plans,
 		QuickTime: 70 * time.Second, ThorTime: 15 * time.Minute,
-		Rule: "engine N: every order of application calls (five commits issued in program order by one group member: 2x CommitOffsets async, CommitOffsetsSync, CommitRecords, CommitUncommittedOffsets; in variant C-rebalance a second member joining the group), request/response frame deliveries, timer ticks and injected faults on OffsetCommit (stalled request, COORDINATOR_LOAD_IN_PROGRESS, NOT_COORDINATOR, UNKNOWN_TOPIC_OR_PARTITION, connection killed before / after the broker handled it) within k deviations of the default order; distinct = distinct terminal outcomes (per-call result, wire order of attributed OffsetCommit requests, broker offsets, CommittedOffsets view)",
+		Rule: "engine N: every order of application calls (five commits issued in program order by one group member: 2x CommitOffsets async, CommitOffsetsSync, CommitRecords, CommitUncommittedOffsets; in the C-rebalance variants a second member joining the group and a forced rejoin of the first, cooperative and eager), request/response frame deliveries, timer ticks and injected faults on OffsetCommit (stalled request, COORDINATOR_LOAD_IN_PROGRESS, NOT_COORDINATOR, UNKNOWN_TOPIC_OR_PARTITION, connection killed before / after the broker handled it) within k deviations of the default order; distinct = distinct terminal outcomes (per-call result, wire order of attributed OffsetCommit requests, broker offsets, CommittedOffsets view)",
 		Assume: []string{"kfake is the group coordinator", "synctests build of xsync (C31 covers the channel mutexes)", "a request the client abandons by closing its connection is never delivered afterwards (proxy model)", "goroutine micro-interleavings inside one event are the Go runtime's"},
 	})
 }
